@@ -5,7 +5,7 @@
    by the CRLF oracle (L2). *)
 From IRC Require Import Str Wild Glob Parse Reply State Handlers Step.
 From IRC Require Import Frame.
-From IRCP Require Import RoundP ParseP FrameP RelayP.
+From IRCP Require Import RoundP ParseP FrameP RelayP NoLfP.
 From Coq Require Import List Arith Lia.
 Import ListNotations.
 
@@ -146,6 +146,13 @@ Proof. exact decode_encode. Qed.
 Theorem C13_unterminated_not_executed : forall pending seg l, nolf (pending ++ seg) -> ~ In (FLine l) (fst (feed pending seg)).
 Proof. exact unterminated_yields_no_line. Qed.
 
+(* ... and it IS one line: every character of every part of a tokenised message is a character of the received line, the
+   codec hands over lines without LF, so what the relay serialiser writes for it - with the LF-free source of a registered
+   user - contains no LF; by C13_encode_decode the receiver's codec frames it as exactly one message *)
+Theorem C13_relayed_line_has_no_lf : forall pending seg l m src,
+  In (FLine l) (fst (feed pending seg)) -> tokenize l = inl m -> nolf src -> nolf (to_string_with_source m src).
+Proof. exact relayed_line_nolf. Qed.
+
 End C13.
 
 Print Assumptions C13_tokens_wellformed.
@@ -167,3 +174,4 @@ Print Assumptions C13_overlong_not_executed.
 Print Assumptions C13_received_lines_have_no_lf.
 Print Assumptions C13_encode_decode.
 Print Assumptions C13_unterminated_not_executed.
+Print Assumptions C13_relayed_line_has_no_lf.
